@@ -1,22 +1,23 @@
 import BppModel.Tree
 import BppProofs.Props.C14
 /-!
-# C15 — tree container (src/Bpp/Graph/TreeGraphImpl.h on GlobalGraph)
+# C15 — tree container (src/Bpp/Graph/TreeGraphImpl.h on GlobalGraph): soundness of the cached validity
 
 Proved here, for all histories: the cached validity flag is **sound** — whenever `isValid_` is set,
-the single-visit traversal from the root (`isTree`, GlobalGraph.cpp:649) answers true on the
+the single-visit traversal from the root (`isTree`, GlobalGraph.cpp:653) answers true on the
 *current* graph — hence `isValid()` always answers what the traversal answers now, "at every
 moment and regardless of earlier queries".  Every mutating primitive of GlobalGraph ends with the
 virtual `topologyHasChanged_()`; the model (`BppModel/Tree.lean`, `T.lift`) resets the flag exactly
 when such a primitive has run; an operation that raises before touching anything leaves the graph
 unchanged (C14 `raises_unchanged`), so the flag may stay.
 
-Not proved (explored by the check against an independent reference tree; full statements for the record):
-* `isValid_iff  : isTree g = .ok true ↔ g is a tree spanning all nodes from the root`
-* `rootAt_spec  : valid t → rootAt n keeps the undirected edge set (ids, end points), makes n the
-                  unique father-less node and leaves the tree valid`   (false for unrooted trees: finding C15-rootAt-unrooted)
-* `father_sons_spec, leaves_under_spec` (false: finding C15-leaves-single-son), `subtree_spec`, `path_spec`, `edge_path_spec`
-* `mrca_spec    : valid rooted t → MRCA t S = deepest common ancestor`   (false: `mrca_witness`, finding C15-mrca-lockstep)
+The other clauses of the property:
+* `Props/C15Valid.lean`   — `isTree_iff`, `isValid_iff`: the traversal decides "tree spanning all nodes from the root"
+* `Props/C15Fuel.lean`    — the fuel of the model's recursions suffices
+* `Props/C15Queries.lean` — father / sons / branches / leaves-under / subtree / path / edge path / MRCA against the reference tree
+* `Props/C15RootAt.lean`  — `rootAt_spec` (rooted and unrooted trees)
+* `Props/C15Dag.lean`     — the DAG container: cache soundness, `isDA_iff_acyclic`
+* `Props/C15Obs.lean`, `Props/C15ObsReady.lean` — `setFather` / `addSon` with an edge object, `rootAt` keeps the associations
 -/
 namespace Bpp.C15
 open Bpp Bpp.Graph Bpp.Graph.T
